@@ -22,16 +22,26 @@ CFG = {
             "bytes, hostile size prefixes and correctly ECIES-encrypted malformed plaintexts. Base protocol: readProtocolHandshake and the real "
             "Server.runPeer over the real rlpx transport with disconnect reasons 0..2^64-1, pings, unknown/out-of-range codes. aqua: the real "
             "ProtocolManager.handleMsg / peer.readStatus behind a stub transport on valid payloads of every message code, every truncation, "
-            "mutations, random bytes, the ProtocolMaxMsgSize lattice and GetBlockHeaders overflow lattices. Non-trivial = the real code "
+            "mutations, random bytes, the ProtocolMaxMsgSize lattice and GetBlockHeaders overflow lattices. Silent / stalling peers: 16 scenarios "
+            "run concurrently, one per blocking read/write on a handler path (aqua ProtocolManager.handle / peer.Handshake: no Status, no reads, "
+            "Status after the timeout; Server.SetupConn inbound and dialed: nothing, half an auth packet, size prefix only, silence after the "
+            "encryption handshake with and without reading, half a frame header; established peers going silent / stopping mid-frame), each must "
+            "return an error within the stage's own timeout (5 s / 30 s) + 12 s. Identity lattice (~100 identities: (0,0), (1,0), (0,1), P-1, "
+            "x or y >= P, 2^256-1, G, -G, valid x with wrong y, swapped halves, real keys with flipped bits, random pairs) through NodeID.Pubkey, "
+            "Node.validateComplete and the real responder doEncHandshake fed a correctly encrypted, validly signed auth packet naming the "
+            "identity; accepted <=> y^2 = x^3+7 mod P (recomputed with big.Int and by the Lean model). Non-trivial = the real code "
             "accepted/delivered something (distinct inputs counted).",
     "tie": {"discover.decodePacket / encodePacket / expired": "corr (Go vs Model.Net.decodePacket/encodePacket/expired; Keccak in Lean, recovery as oracle)",
             "p2p.rlpxFrameRW.WriteMsg / ReadMsg / updateMAC": "corr over toy primitives (Go vs Model.Net.writeMsg/readMsg, snappy as oracle) + direct judgement over real AES/Keccak",
             "p2p.readHandshakeMsg": "corr on the size logic (ECIES and RLP verdicts as oracles) + direct judgement",
             "p2p.receiverEncHandshake / initiatorEncHandshake / readProtocolHandshake / Server.runPeer / Peer.run": "direct judgement on the real code (never panics / hangs / over-allocates; class of readProtocolHandshake vs model)",
+            "discover.NodeID.Pubkey / Node.validateComplete / rlpx handleAuthMsg (via doEncHandshake)": "corr (Go vs Model.Net.idOnCurve / handleAuthMsg) + direct judgement against the curve equation",
+            "aqua.ProtocolManager.handle / peer.Handshake, p2p.Server.SetupConn / setupConn / doProtoHandshake, Peer.run readLoop (silent peers)": "direct judgement with per-stage deadlines (never wedges)",
             "aqua.ProtocolManager.handleMsg / peer.readStatus": "corr on the front (size limit, code dispatch, decode-error path; decode verdict as oracle) + direct judgement"},
     "assumptions": ["Go runtime, math/big, rlp internals and the cryptographic primitives are modelled as parameters, not verified (DESIGN.md 2.5)",
                     "frame_tamper_detected_partial assumes collision-freedom of the truncated Keccak MAC on the two inputs of the comparison reached; unforgeability when both a region and its MAC field are replaced is a cryptographic assumption exercised on the real primitives only",
-                    "'never wedges' is judged by a watchdog on in-memory connections that end with EOF; on a live socket a silent peer is bounded by the 30 s frame read deadline, which is not exercised",
+                    "'never wedges' is a runtime observation: in-memory connections that end with EOF under a watchdog, and silent/stalling peers on pipes judged against the stage's own timeout (5 s handshakes, 30 s frame read deadline) plus 12 s slack",
+                    "identities with a coordinate >= P that reduce to a curve point (x+P) are accepted by HEAD (btcec reduces mod P); the model mirrors this: identity malleability, not an authentication break",
                     "goroutine lifecycles of p2p.Server beyond runPeer are not modelled"],
     "trusted_base": ["Model.Net mirrors p2p/discover/udp.go decodePacket/encodePacket/expired, p2p/rlpx.go WriteMsg/ReadMsg/updateMAC/readHandshakeMsg, "
                      "aqua/handler.go handleMsg front and p2p/rlpx.go readProtocolHandshake front, with Go slice/index expressions as partial operations"],
@@ -42,7 +52,8 @@ META = {
     "text": "Theorems discovery_total (decodePacket on EVERY byte string returns a packet or an error, never a panic; a witness shows the length "
             "guard of commit 5ac0fad is necessary), discovery_authenticated, discovery_roundtrip, discovery_tamper_detected, frame_roundtrip "
             "(all message sequences, reader ingress state tracks writer egress state), frame_truncation_rejected, frame_tamper_detected_partial, "
-            "frame_alloc_bound (every buffer <= 2^24+15, snappy <= 2^24-1), frame_size_accounting, handler_size_limit, handshake_total_and_bounded "
+            "frame_alloc_bound (every buffer <= 2^24+15, snappy <= 2^24-1), frame_size_accounting, handler_size_limit, handshake_total_and_bounded, "
+            "responder_identity_validated (session secrets only for identities the validation predicate accepts; the curve rule rejects (1,0) etc.) "
             "hold for all inputs in the Lean model with Go slice operations explicit; every run re-checks them and runs the real decoders, frame "
             "codec, handshake readers, peer loop and aqua handler on ~40k adversarial inputs (truncated at every length, every byte position "
             "mutated, correctly signed but malformed), comparing outcome classes and delivered values with the compiled model.",
